@@ -277,6 +277,15 @@ def rule_instances(rng: random.Random, widths=(1, 2, 3, 4, 8, 16, 32, 64), per=6
             out.append(T("If", b1, BoolV(False), BoolV(True)))
             out.append(T("If", b1, BoolV(True), b2))
             out.append(T("__eq__", T("If", b1, x, y), T("If", b1, a, b)))
+            # flattened n-ary sums / products with constants in every position, then +/- a constant (bitwise_sub_simplifier,
+            # bitwise_add_simplifier: the branches for two terms and for three or more differ)
+            for inner in (T("__add__", x, y, a), T("__add__", x, a, y), T("__add__", a, x, y), T("__add__", x, y, x, a),
+                          T("__sub__", x, y, a), T("__sub__", T("__add__", x, y), a), T("__add__", T("__sub__", x, y), a),
+                          T("__mul__", x, y, a), T("__xor__", x, y, a), T("__or__", x, y, a), T("__and__", x, y, a)):
+                out.append(T("__sub__", inner, b))
+                out.append(T("__add__", inner, b))
+                out.append(T("__sub__", b, inner))
+                out.append(T(inner[0], inner, b) if inner[0] not in ("__sub__",) else T("__sub__", inner, y))
             # And over one variable: eq/eq, eq/ne lists, UGE && != (boolean_and_simplifier)
             out.append(T("And", T("__eq__", x, a), T("__eq__", x, b)))
             out.append(T("And", T("__eq__", x, a), T("__eq__", x, a)))
